@@ -218,7 +218,7 @@ class Exec15(Executor):
 
     def term(self, st, line, depth):
         # `{async fn body of X::new()}` inside a callee path would end the callee at its `(`
-        return super().term(st, canon_state(line).replace("()}", "}"), depth)
+        return super().term(st, canon_state(line).replace("()}", "}").replace("<(), ", "<Unit, ").replace("<()>", "<Unit>").replace(", ()>", ", Unit>"), depth)
 
     def _block(self, st, bb, depth):
         if depth > 300:
